@@ -807,8 +807,11 @@ class NPProxy:
     def identity(s, n, dtype=float):
         return s.eye(n, dtype=dtype)
 
-    def array(s, x, dtype=None, order=None, **kw):
+    def array(s, x, dtype=None, order=None, copy=True, **kw):
         s._hit('array')
+        if copy is False or copy is None:
+            if isinstance(x, SymArr) and (dtype is None or np.dtype(dtype).kind == x.ckind):
+                return x
         try:
             a = np.asarray(x)
         except Exception:
@@ -826,6 +829,9 @@ class NPProxy:
         return np.array(x, dtype=dtype, order=order, **kw)
 
     def asarray(s, x, dtype=None, order=None):
+        # numpy.asarray does not copy when dtype (and layout) already match: keep that aliasing behaviour
+        if isinstance(x, SymArr) and (dtype is None or np.dtype(dtype).kind == x.ckind) and x.flags.c_contiguous:
+            return x
         return s.array(x, dtype=dtype, order=order)
 
     def ascontiguousarray(s, x, dtype=None):
